@@ -425,7 +425,7 @@ impl Check for C13 {
         let width = ctx.tier.pick(4usize, 5usize);
         let thorough = ctx.tier == Tier::Thorough;
         ctx.rule = format!(
-            "complete product: list patterns of width 0..{} over {{name, _, [n, n], [n, ..n], {{\"k\": n}}, {{k}}}} x {{no rest, ..r, .._}} x source lengths 0..5 x 4 binding positions (declaration, assignment, for target, parameter), a wrong-kind element under each nested item, non-list sources; object patterns over every ordered selection of <= 3 of the keys a, b, c x 4 entry forms (shorthand, rename, rename to _, nested list) x rest x all 32 source key subsets of {{a, b, c, x, y}} x binding positions, non-object sources; 30 malformed patterns; spread laws for all length pairs 0..3; argument splits of 0..5 arguments over parameter lists of arity 0..4 with and without rest; non-trivial = all (distinct tuples)",
+            "complete product: list patterns of width 0..{} over {{name, _, [n, n], [n, ..n], {{\"k\": n}}, {{k}}}} x {{no rest, ..r, .._}} x source lengths 0..5 x 4 binding positions (declaration, assignment, for target, parameter), a wrong-kind element under each nested item, non-list sources; object patterns over every ordered selection of <= 3 of the keys a, b, c x 4 entry forms (shorthand, rename, rename to _, nested list) x rest x all 32 source key subsets of {{a, b, c, x, y}} x binding positions, non-object sources; 30 malformed patterns; spread laws for all length pairs 0..3; argument splits of 0..5 arguments over parameter lists of arity 0..4 with and without rest; 20 programs whose targets are elements of the source or whose literal source reads the targets (swaps, rotations); non-trivial = all (distinct tuples)",
             width
         );
         let mut cases = vec![];
@@ -438,6 +438,32 @@ impl Check for C13 {
         for mut c in super::c14::arity_cases_pub() {
             c.tag = T_REF;
             cases.push(c);
+        }
+        // targets that are elements or properties of the source itself, swaps and rotations through
+        // a literal, patterns over a source that a target's index expression reads (T_REF)
+        for src in [
+            "xs := [1, 2, 3]\n[xs[2], xs[0], xs[1]] = xs\nprint(xs)\n",
+            "xs := [1, 2, 3]\n[_, xs[0], ..t] = xs\nprint(xs)\nprint(t)\n",
+            "xs := [1, 2, 3]\n[h, xs[2], _] = xs\nprint(xs)\nprint(h)\n",
+            "xs := [1, 2, 3]\n[h, ..xs[0:1]] = xs\nprint(xs)\n",
+            "xs := [0, 2, 1]\n[xs[xs[0]], xs[xs[1]], _] = xs\nprint(xs)\n",
+            "g := {\"row\": [1, 2, 3]}\n[h, g.row[2], _] = g.row\nprint(g)\nprint(h)\n",
+            "o := {\"a\": 1, \"b\": 2}\n{\"a\": o.b, \"b\": o.a} = o\nprint(o)\n",
+            "o := {\"a\": 1, \"b\": 2}\n{\"a\": o.c, ..r} = o\nprint(o)\nprint(r)\n",
+            "o := {\"a\": [1], \"b\": 2}\n{\"a\": [o.b]} = o\nprint(o)\n",
+            "xs := [1, 2]\nfor [xs[1], xs[0]] in [[5, 6], xs] {\nprint(xs)\n}\n",
+            "xs := [[1, 2], [3, 4]]\nfor [i, [xs[0][0], v]] in xs {\nprint(v)\n}\nprint(xs)\n",
+            "a := 1\nb := 2\n[a, b] = [b, a]\nprint([a, b])\n",
+            "a := 1\nb := 2\nc := 3\n[a, b, c] = [c, a, b]\nprint([a, b, c])\n",
+            "a := 1\nb := 1\ni := 0\nwhile i < 5 {\n[a, b, i] = [b, a + b, i + 1]\n}\nprint([a, b])\n",
+            "xs := [1, 2, 3]\n[xs[0], xs[1], xs[2]] = [xs[1], xs[2], xs[0]]\nprint(xs)\n",
+            "o := {\"a\": 1, \"b\": 2}\n{\"a\": o.b, \"b\": o.a} = {\"a\": o.a, \"b\": o.b}\nprint(o)\n",
+            "a := 1\nb := 2\n{a, b} = {\"a\": b, \"b\": a}\nprint([a, b])\n",
+            "a := 1\nb := 2\n[a, [b]] = [b, [a]]\nprint([a, b])\n",
+            "[p, q] := [1, 2]\n[q, p] := [p, q]\n",
+            "a := [1]\n[a, b] := [a + [2], a]\nprint(b)\n",
+        ] {
+            cases.push(Case::new(src.to_string(), T_REF, "targets or literal items that read what is being bound".to_string()));
         }
         let total = cases.len();
         let mut n_ok = 0;
